@@ -1,12 +1,26 @@
 import EdpVerif.Lemmas.CmpSwap
 import EdpVerif.Impl.Den
 import EdpVerif.Spec.ErlOrder
+import EdpVerif.Lemmas.ErlAgree
+import EdpVerif.Lemmas.ErlAgreeBits
+import EdpVerif.Lemmas.ErlAgreeRec
 /-
 C12 — term comparison agrees with Erlang's standard term order.
-Oracle: `Erl.cmp` on the denoted values (Spec/ErlOrder.lean).
+Oracle: `Erl.cmp` on the denoted values (Spec/ErlOrder.lean); `Term.den` (Impl/Den.lean) is the denotation.
+
+Main theorem `C12_agrees`: for all terms satisfying the guard, `Term.cmp a b = Erl.cmp (den a) (den b)`.
+The guard (`WFe` and `mapsSorted`, both decidable) lists exactly what is excluded:
+  * big integers with a high-order zero digit (`C12_not_agrees_nonminimal_big`: the code orders them by digit count);
+  * NaN and the infinities (they are not Erlang values);
+  * atom / node / module texts that are not valid UTF-8 (excluded by the Rust type `Atom { name: Arc<str> }`);
+  * bit-strings the decoder does not produce (`bits` outside 1..8, non-zero unused bits, no bytes with `bits ≠ 8`);
+  * map keys that contain a float with an integer value such as 1.0 (`C12_not_agrees_map_key_tie`: recorded finding
+    KF-C12-map-key-exact — inside map keys Erlang orders the integer before the float of equal value, the library uses
+    its general order; floats with a fractional part are allowed in keys, they tie with no integer);
+  * maps whose entries are not stored in ascending key order (a `BTreeMap` always is).
 -/
 namespace Edp.Props.C12
-open Edp
+open Edp Edp.Term
 
 /-- small integers: the library's comparison is Erlang's on the denoted values -/
 theorem C12_agrees_int (x y : Int) :
@@ -24,5 +38,103 @@ theorem C12_number_lt_atom (a : Bytes) (x : Int) :
 theorem C12_spec_exact_int_float_witness :
     Erl.cmp (.int (2 ^ 53 + 1)) (.float 0x4340000000000000) = .gt ∧
     Erl.cmp (.int (2 ^ 53)) (.float 0x4340000000000000) = .eq := by decide
+
+/-- numbers: all nine pairs of representations (small integer, big integer with minimal digits, finite float) compare
+exactly as Erlang compares the denoted numbers -/
+theorem C12_agrees_numbers (a b : Term) (ha : isNum a) (hb : isNum b) (oa : numOk a) (ob : numOk b)
+    (fa : numFin a) (fb : numFin b) : Term.cmp a b = Erl.cmp (Term.den a) (Term.den b) :=
+  agrees_numbers a b ha hb oa ob fa fb
+
+example : isNum (.big true [0, 0, 0, 0, 0, 0, 0, 0, 1]) ∧ numOk (.big true [0, 0, 0, 0, 0, 0, 0, 0, 1]) ∧
+    numFin (.float 0x4340000000000001) := by simp [isNum, numOk, numFin, minDigits, finiteF, f64]
+
+/-- the general theorem: on well-formed terms the library's order IS Erlang's term order of the denoted values -/
+theorem C12_agrees (a b : Term) (wa : WFe a) (wb : WFe b) (sa : mapsSorted a) (sb : mapsSorted b) :
+    Term.cmp a b = Erl.cmp (Term.den a) (Term.den b) := cmp_agrees a b wa wb sa sb
+
+/-- non-vacuity: a nested term with every kind of child satisfies the guard (a map key may be a float with a
+fractional part: 1.5) -/
+example : WFe (.tuple [.atom [0xe6, 0x97, 0xa5], .big true [0, 1], .float 0x3FF8000000000000, .bits [0xff, 0x80] 1,
+    .ilist [.int 1] (.bin [1]), .list [], .map [(.int 1, .float 0), (.float 0x3FF8000000000000, .nil), (.atom [97], .nil)],
+    .pid ⟨[97, 64, 104], 1, 2, 3, none⟩]) = true ∧
+  mapsSorted (.tuple [.map [(.int 1, .float 0), (.float 0x3FF8000000000000, .nil), (.atom [97], .nil)]]) = true := by
+  constructor
+  · simp [WFe, WFeL, WFeKV, validUtf8, utf8Decode, isCont, minDigits, finiteF, f64, bitsOk, keysExact, Term.den,
+      Value.noTie, fracF, F64.mant, F64.expo]
+  · simp [mapsSorted, mapsSortedL, mapsSortedKV, adjSorted, Term.cmp, Term.norm, Term.cmpN, Term.rank, cmpIntFloat,
+      natDigits_one]
+    decide
+
+/-- equality in the library's order is Erlang's `==` on the denoted values -/
+theorem C12_equal_iff (a b : Term) (wa : WFe a) (wb : WFe b) (sa : mapsSorted a) (sb : mapsSorted b) :
+    Term.cmp a b = .eq ↔ Erl.cmp (Term.den a) (Term.den b) = .eq := by
+  rw [C12_agrees a b wa wb sa sb]
+
+/-- atoms by code points (UTF-8 preserves code point order) -/
+theorem C12_agrees_atoms (a b : Bytes) (ha : validUtf8 a) (hb : validUtf8 b) :
+    Term.cmp (.atom a) (.atom b) = Erl.cmp (Term.den (.atom a)) (Term.den (.atom b)) :=
+  C12_agrees _ _ (by simpa [WFe] using ha) (by simpa [WFe] using hb) (by simp [mapsSorted]) (by simp [mapsSorted])
+
+example : validUtf8 [0xf0, 0x90, 0x80, 0x80] = true ∧ validUtf8 [0xc3, 0xa9] = true := by
+  simp [validUtf8, utf8Decode, isCont]
+
+/-- pids, ports, references, external funs: by the identifying fields, node names by code points -/
+theorem C12_agrees_pids (p q : PidF) (hp : validUtf8 p.node) (hq : validUtf8 q.node) :
+    Term.cmp (.pid p) (.pid q) = Erl.cmp (Term.den (.pid p)) (Term.den (.pid q)) :=
+  C12_agrees _ _ (by simpa [WFe] using hp) (by simpa [WFe] using hq) (by simp [mapsSorted]) (by simp [mapsSorted])
+
+theorem C12_agrees_ports (n : Bytes) (i c : Nat) (l : Option Bytes) (n2 : Bytes) (i2 c2 : Nat) (l2 : Option Bytes)
+    (hn : validUtf8 n) (hn2 : validUtf8 n2) :
+    Term.cmp (.port n i c l) (.port n2 i2 c2 l2) = Erl.cmp (Term.den (.port n i c l)) (Term.den (.port n2 i2 c2 l2)) :=
+  C12_agrees _ _ (by simpa [WFe] using hn) (by simpa [WFe] using hn2) (by simp [mapsSorted]) (by simp [mapsSorted])
+
+theorem C12_agrees_refs (n : Bytes) (c : Nat) (ids : List Nat) (l : Option Bytes) (n2 : Bytes) (c2 : Nat) (ids2 : List Nat)
+    (l2 : Option Bytes) (hn : validUtf8 n) (hn2 : validUtf8 n2) :
+    Term.cmp (.ref n c ids l) (.ref n2 c2 ids2 l2) = Erl.cmp (Term.den (.ref n c ids l)) (Term.den (.ref n2 c2 ids2 l2)) :=
+  C12_agrees _ _ (by simpa [WFe] using hn) (by simpa [WFe] using hn2) (by simp [mapsSorted]) (by simp [mapsSorted])
+
+/-- tuples: by size, then element-wise -/
+theorem C12_agrees_tuples (x y : List Term) (wx : WFeL x) (wy : WFeL y) (sx : mapsSortedL x) (sy : mapsSortedL y) :
+    Term.cmp (.tuple x) (.tuple y) = Erl.cmp (Term.den (.tuple x)) (Term.den (.tuple y)) :=
+  C12_agrees _ _ (by simpa [WFe] using wx) (by simpa [WFe] using wy) (by simpa [mapsSorted] using sx)
+    (by simpa [mapsSorted] using sy)
+
+/-- lists in any of the three representations (nil, proper, improper with a tail that may itself be a list):
+element-wise, then the tails -/
+theorem C12_agrees_lists (a b : Term) (_ha : isListLike a) (_hb : isListLike b) (wa : WFe a) (wb : WFe b)
+    (sa : mapsSorted a) (sb : mapsSorted b) : Term.cmp a b = Erl.cmp (Term.den a) (Term.den b) :=
+  C12_agrees a b wa wb sa sb
+
+example : isListLike (.ilist [.int 1] (.ilist [] (.list [.int 2]))) = true ∧
+    WFe (.ilist [.int 1] (.ilist [] (.list [.int 2]))) = true := by simp [isListLike, WFe, WFeL]
+
+/-- binaries, strings and bit-strings: bit-wise, a prefix being smaller -/
+theorem C12_agrees_bitstrings (x y : Bytes) (n m : Nat) (hx : bitsOk x n) (hy : bitsOk y m) :
+    Term.cmp (.bits x n) (.bits y m) = Erl.cmp (Term.den (.bits x n)) (Term.den (.bits y m)) :=
+  C12_agrees _ _ (by simpa [WFe] using hx) (by simpa [WFe] using hy) (by simp [mapsSorted]) (by simp [mapsSorted])
+
+theorem C12_agrees_binary_bitstring (x y : Bytes) (m : Nat) (hy : bitsOk y m) :
+    Term.cmp (.bin x) (.bits y m) = Erl.cmp (Term.den (.bin x)) (Term.den (.bits y m)) :=
+  C12_agrees _ _ (by simp [WFe]) (by simpa [WFe] using hy) (by simp [mapsSorted]) (by simp [mapsSorted])
+
+example : bitsOk [0xff, 0x80] 1 = true ∧ bitsOk [] 8 = true ∧ bitsOk [0xfe] 7 = true := by simp [bitsOk]
+
+/-- the recorded finding as a theorem: with an integer/float tie between map keys the library's order is NOT
+Erlang's (`#{1 => []}` against `#{1.0 => []}`: Equal for the library, Less for Erlang) — hence the guard on keys -/
+theorem C12_not_agrees_map_key_tie :
+    Term.cmp (.map [(.int 1, .nil)]) (.map [(.float 0x3FF0000000000000, .nil)]) = .eq ∧
+    Erl.cmp (Term.den (.map [(.int 1, .nil)])) (Term.den (.map [(.float 0x3FF0000000000000, .nil)])) = .lt := by
+  constructor
+  · simp [Term.cmp, Term.norm, Term.normKV, Term.cmpN, Term.cmpKeys, Term.cmpVals, cmpIntFloat, natDigits_one]; decide
+  · decide
+
+/-- the minimal-digits guard is needed: a big integer with a high-order zero digit (the decoder keeps the digits of
+`131,110,2,0,1,0` as they are) denotes 1 but compares Greater than the integer 1 — the code compares digit counts -/
+theorem C12_not_agrees_nonminimal_big :
+    Term.cmp (.big false [1, 0]) (.int 1) = .gt ∧
+    Erl.cmp (Term.den (.big false [1, 0])) (Term.den (.int 1)) = .eq := by
+  constructor
+  · simp [Term.cmp, Term.norm, Term.cmpN, cmpIntBig, natDigits_one, cmpSignedMag, signum, allZero, cmpMag, thenO]; decide
+  · decide
 
 end Edp.Props.C12
